@@ -7,6 +7,9 @@
 (* what UConn.MarshalClientHello replaces by the real outer extension;     *)
 (* HelloGolang takes the upstream path)                                    *)
 (*   x ECH configuration {config_id, AEAD, maximum_name_length, names}     *)
+(*   x shape of the ECHConfigList around the configuration to be used      *)
+(*     {single, followed by a second usable one, followed by entries to    *)
+(*      skip (unknown version, unsupported KEM), preceded by such entries} *)
 (*   x server behaviour {accept, accept after HelloRetryRequest for every  *)
 (*     classical group the ID supports without sending a share, reject     *)
 (*     with 0/1/2 retry configs, reject after HRR, no ECH support}         *)
@@ -22,6 +25,7 @@ CONSTANTS CfgIds,      \* config_id values
           AeadIds,     \* HPKE AEAD ids offered by the configuration
           MaxLens,     \* maximum_name_length values
           NameSets,    \* subset of 1..Len(NamePairs)
+          ShapeIdx,    \* subset of 1..Len(ListShapes): shapes of the client's ECHConfigList
           Sample,      \* 99: the full product of the four sets above; 0..5: a Latin-square ninth of it (quick tier, chosen by VERIF_SEED)
           Mutant       \* "none" | model-level sensitivity mutants (a wrong client must violate an invariant)
 
@@ -43,6 +47,14 @@ NamePairs == << [s |-> <<115,101,99,114,101,116,46,101,120,97,109,112,108,101>>,
 \* ---------- model bytes
 ModelPK(k) == [i \in 1..32 |-> 80 + k]
 ModelCfg(v, k) == EncECHConfig((v.cfgid + k) % 256, ModelPK(k), v.aead, v.maxlen, v.pubname)
+\* the client's ECHConfigList: the configuration to be used (ModelCfg(v, 0)) inside the list shape
+ModelOtherUsable(v) == EncECHConfig((v.cfgid + 100) % 256, ModelPK(5), v.aead, v.maxlen, v.pubname)
+ModelUnknownVersion == EncUnknownVersionEntry(<<1, 2, 3, 4, 5, 6, 7, 8, 9, 10>>)
+ModelBadKEM(v) == EncECHConfigK((v.cfgid + 50) % 256, 16, [i \in 1..65 |-> 4], v.aead, v.maxlen, v.pubname)
+ModelList(v) == EncCfgList(CASE v.shape = "two_usable" -> <<ModelCfg(v, 0), ModelOtherUsable(v)>>
+                             [] v.shape = "usable_skipped" -> <<ModelCfg(v, 0), ModelUnknownVersion, ModelBadKEM(v)>>
+                             [] v.shape = "skipped_usable" -> <<ModelUnknownVersion, ModelBadKEM(v), ModelCfg(v, 0)>>
+                             [] OTHER -> <<ModelCfg(v, 0)>>)
 ModelShare(g) == U16(g) \o Vec16(<<g % 256, 7>>)
 KeyShareExt(gs) == Ext(51, Vec16(Flat([i \in DOMAIN gs |-> ModelShare(gs[i])])))
 GroupsExt(gs) == Ext(10, Vec16(U16List(gs)))
@@ -83,17 +95,19 @@ ServerVariants(id) ==
 \* quick tier: config_id x AEAD x maximum_name_length reduced to a Latin square (every pair of values of two parameters occurs),
 \* the name pair tied to it
 Rank(x, S) == Cardinality({y \in S : y < x})
-Keep(c, a, m, n) == \/ Sample = 99
-                    \/ /\ (Rank(c, CfgIds) + Rank(a, AeadIds) + Rank(m, MaxLens)) % 3 = Sample % 3
-                       /\ Rank(n, NameSets) = (Rank(c, CfgIds) + Rank(m, MaxLens) + (Sample \div 3)) % Cardinality(NameSets)
+\* and the list shape tied to it (every shape occurs with every ID, server behaviour and certificate)
+Keep(c, a, m, n, sh) == \/ Sample = 99
+                        \/ /\ (Rank(c, CfgIds) + Rank(a, AeadIds) + Rank(m, MaxLens)) % 3 = Sample % 3
+                           /\ Rank(n, NameSets) = (Rank(c, CfgIds) + Rank(m, MaxLens) + (Sample \div 3)) % Cardinality(NameSets)
+                           /\ Rank(sh, ShapeIdx) = (Rank(c, CfgIds) + 2 * Rank(a, AeadIds) + Sample) % Cardinality(ShapeIdx)
 VariantsOf(id) == { [id |-> id, sname |-> NamePairs[n].s, pubname |-> NamePairs[n].p, cfgid |-> c, aead |-> a, maxlen |-> m,
-                     server |-> sv.server, hrr_group |-> sv.hrr_group, nretry |-> sv.nretry, cert |-> ct] :
-                    <<n, c, a, m>> \in {q \in NameSets \X CfgIds \X AeadIds \X MaxLens : Keep(q[2], q[3], q[4], q[1])},
+                     server |-> sv.server, hrr_group |-> sv.hrr_group, nretry |-> sv.nretry, cert |-> ct, shape |-> ListShapes[sh]] :
+                    <<n, c, a, m, sh>> \in {q \in NameSets \X CfgIds \X AeadIds \X MaxLens \X ShapeIdx : Keep(q[2], q[3], q[4], q[1], q[5])},
                     ct \in CertKinds, sv \in ServerVariants(id) }
 Variants == UNION {VariantsOf(id) : id \in Capable}
 Scenario(v) == [id |-> v.id, sname |-> v.sname, pubname |-> v.pubname, server |-> v.server, hrr_group |-> v.hrr_group, cert |-> v.cert,
-                cfgid |-> v.cfgid, aead |-> v.aead, maxlen |-> v.maxlen, nretry |-> v.nretry,
-                cfg_list |-> EncCfgList(<<ModelCfg(v, 0)>>),
+                cfgid |-> v.cfgid, aead |-> v.aead, maxlen |-> v.maxlen, nretry |-> v.nretry, shape |-> v.shape,
+                cfg_list |-> ModelList(v),
                 retry_list |-> IF v.nretry = 0 THEN <<>> ELSE EncCfgList([k \in 1..v.nretry |-> ModelCfg(v, k)])]
 
 Init == /\ scn \in {Scenario(v) : v \in Variants}
@@ -135,10 +149,11 @@ Terminal == cli.pc = "done"
 ScenarioSane == /\ scn.sname # scn.pubname /\ ~Contains(scn.pubname, scn.sname)
                 /\ Cfg(scn).ok /\ Cfg(scn).id = scn.cfgid /\ Cfg(scn).maxlen = scn.maxlen /\ Cfg(scn).pubname = scn.pubname
                 /\ PickSuite(Cfg(scn)).aead = scn.aead
+                /\ ShapeSane(scn.shape, ParseCfgList(scn.cfg_list)) /\ Cfg(scn).pk = ModelPK(0)
 \* every scenario ends, after an HRR iff the server asked for one
 Progress == Terminal => Len(obs.chs) = (IF SrvSendsHRR(scn) THEN 2 ELSE 1)
 
 Emit == Terminal => PrintT(<<"SCN", ToJson([id |-> scn.id, sname |-> scn.sname, pubname |-> scn.pubname, cfgid |-> scn.cfgid, aead |-> scn.aead,
                                               maxlen |-> scn.maxlen, server |-> scn.server, hrr_group |-> scn.hrr_group, nretry |-> scn.nretry,
-                                              cert |-> scn.cert, minver |-> 0])>>)
+                                              cert |-> scn.cert, shape |-> scn.shape, minver |-> 0])>>)
 =============================================================================
